@@ -22,8 +22,11 @@ def lock_name(T, bi, t):
         return str(a[1]).split("::")[-1]
     return show(a, maxd=2)
 
+from ..rules_tz import fold_agree
+
 
 def run(ctx, rep):
+    fold_agree(rep, ctx.prog("Q"))
     prog = ctx.prog("Q")
     rep.notes.append("Does not decide history/schedule independence of results or TTL timing.")
     progs = [("Q", prog)]
